@@ -22,6 +22,7 @@ import (
 
 	"github.com/rs/cors"
 	"golang.org/x/oauth2"
+	"golang.org/x/text/language"
 
 	"github.com/zitadel/oidc/v3/pkg/client"
 	"github.com/zitadel/oidc/v3/pkg/client/rp"
@@ -296,10 +297,31 @@ func (w *World) newTE(name, ref, mode string, supplied bool) {
 
 // newProvider constructs one more provider over its own fresh storage.
 func (w *World) newProvider(ref, host string, opts ...op.Option) {
+	w.newProviderCfg(ref, host, nil, false, opts...)
+}
+
+// newProviderCfg is newProvider with a configuration variant (mut edits the default
+// config before the constructor sees it); legacy additionally mounts a LegacyServer
+// over the new provider as an instance of its own.
+func (w *World) newProviderCfg(ref, host string, mut func(*op.Config), legacy bool, opts ...op.Option) {
 	core := refstore.NewCore(storeConfig())
 	core.NoLog = true
 	st := refstore.New(core, refstore.CapAll)
 	cfg := rig.DefaultOPConfig()
+	if mut != nil {
+		mut(cfg)
+	}
+	defer func() {
+		if !legacy {
+			return
+		}
+		p := w.Insts[len(w.Insts)-1].Obj.(*op.Provider)
+		eps := rig.CopyEndpoints()
+		w.n++
+		w.supply(fmt.Sprintf("op.Endpoints#%d", w.n), "op.Endpoints", &eps)
+		h := op.RegisterLegacyServer(op.NewLegacyServer(p, eps), op.AuthorizeCallbackHandler(p), op.WithFallbackLogger(rig.Discard))
+		w.add(&Inst{Kind: "legacy", Ref: ref + "/legacy", Obj: h, Handler: h, Issuer: "https://" + host})
+	}()
 	w.n++
 	w.supply(fmt.Sprintf("op.Config#%d", w.n), "op.Config", cfg)
 	all := append([]op.Option{op.WithLogger(rig.Discard)}, opts...)
@@ -450,6 +472,34 @@ func buildOps() []Op {
 			w.newProvider("op.NewProvider+other-options", "op-other.example", op.WithAllowInsecure(), op.WithHttpInterceptors(pass, pass),
 				op.WithAccessTokenKeySet(ks), op.WithAccessTokenVerifierOpts(op.WithSupportedAccessTokenSigningAlgorithms("ES256")),
 				op.WithIDTokenHintKeySet(ks), op.WithIDTokenHintVerifierOpts(op.WithSupportedIDTokenHintSigningAlgorithms("ES256")))
+			return "ok"
+		}},
+		// configuration variants: the discovery helpers read the package-level default lists
+		// (scopes, claims, grant/response types, auth methods) under different flags
+		{Name: "op.NewProvider+Config(all-flags-off)", Kind: "ctor-provider", Entry: "op.NewProvider+Config(all-flags-off)", Run: func(w *World) string {
+			w.newProviderCfg("op.NewProvider+Config(all-flags-off)", "op-off.example", func(c *op.Config) {
+				c.CodeMethodS256, c.AuthMethodPost, c.AuthMethodPrivateKeyJWT = false, false, false
+				c.GrantTypeRefreshToken, c.RequestObjectSupported = false, false
+				c.SupportedUILocales = nil
+			}, false)
+			return "ok"
+		}},
+		{Name: "op.NewProvider+Config(all-flags-off)+LegacyServer", Kind: "ctor-provider", Entry: "op.NewProvider+Config(all-flags-off)", Run: func(w *World) string {
+			w.newProviderCfg("op.NewProvider+Config(all-flags-off)+LegacyServer", "op-offl.example", func(c *op.Config) {
+				c.CodeMethodS256, c.AuthMethodPost, c.AuthMethodPrivateKeyJWT = false, false, false
+				c.GrantTypeRefreshToken, c.RequestObjectSupported = false, false
+				c.SupportedUILocales = nil
+			}, true)
+			return "ok"
+		}},
+		{Name: "op.NewProvider+Config(custom-lists)", Kind: "ctor-provider", Entry: "op.NewProvider+Config(custom-lists)", Run: func(w *World) string {
+			w.newProviderCfg("op.NewProvider+Config(custom-lists)", "op-lists.example", func(c *op.Config) {
+				c.GrantTypeRefreshToken = false
+				c.SupportedScopes = []string{"openid", "offline_access", "custom", "email"}
+				c.SupportedClaims = []string{"sub", "custom_claim"}
+				c.BackChannelLogoutSupported, c.BackChannelLogoutSessionSupported = true, true
+				c.SupportedUILocales = []language.Tag{language.German, language.English}
+			}, true)
 			return "ok"
 		}},
 		{Name: "op.NewLegacyServer", Kind: "ctor-provider", Entry: "op.NewLegacyServer", Run: func(w *World) string {
@@ -655,6 +705,27 @@ func buildOps() []Op {
 		)
 	}
 	ops = append(ops,
+		// discovery, keys and probes of every provider / LegacyServer the history has constructed
+		// beyond the base world (the configuration variants above are only reachable through this)
+		Op{Name: "constructed-providers.discovery+keys", Kind: "call-provider", Entry: "constructed-providers:discovery+keys", Run: func(w *World) string {
+			for _, i := range w.Insts {
+				if (i.Kind != "provider" && i.Kind != "legacy") || i.Name == "P0" || i.Name == "L0" {
+					continue
+				}
+				host := strings.TrimPrefix(i.Issuer, "https://")
+				for _, p := range []string{"/.well-known/openid-configuration", "/keys", "/healthz", "/ready"} {
+					rec := httptest.NewRecorder()
+					req := httptest.NewRequest("GET", "https://"+host+p, nil)
+					if pn := engine.Safe(func() { i.Handler.ServeHTTP(rec, req) }); pn != "" {
+						return "panic:" + pn
+					}
+					if p != "/keys" && p != "/ready" && rec.Code != 200 { // custom key endpoints live elsewhere
+						return fmt.Sprintf("refused:%s %s -> %d", i.Name, p, rec.Code)
+					}
+				}
+			}
+			return "ok"
+		}},
 		Op{Name: "rs.Introspect(RS0)", Kind: "call-client", Entry: "rs.Introspect", Run: func(w *World) string {
 			t := w.tokens(0)
 			ir, err := rs.Introspect[*oidc.IntrospectionResponse](w.Ctx, w.Inst("RS0").RS, t.access)
